@@ -20,6 +20,15 @@ RULE += (" Second round: every generated filter (0..2000 elements) is also built
          "cfheaders messages are parsed from wire bytes (valid, truncated, bit-flipped, wrong counts); bloom filters "
          "of 1..36001 bytes / 1..51 functions are rebuilt by the transcription of Bitcoin Core's CBloomFilter and their "
          "filterload payload is decoded and queried as the receiving peer does, tweaks outside uint32 included.")
+RULE += (" Third round: every public constructor is also called DIRECTLY, not through the in-library producers: "
+         "CompactFilter(key, hashes) with hash lists / tuples in element order, ascending, descending, shuffled, "
+         "rotated, with one inversion inside / at either end, interleaved runs, duplicates, all-equal, colliding, "
+         "0 and F-1, sizes 0, 1, 2.. and 252/253/254 (serialize / hash / membership before and after a serialize -> "
+         "parse round trip against the independent BIP158 writer, reader and gcs_match; caller's list untouched and "
+         "not aliased); CFilterMessage / CFHeadersMessage / CFCheckPointMessage constructors (positional, keyword, "
+         "tuple arguments, filter types 0/1/255, 0..2000 hashes); BloomFilter at the size / function-count / tweak "
+         "edges with filterload() default flag; SipHash_2_4 with the data given at construction, by update, split "
+         "at every offset, by keyword and through the module aliases.")
 TRUSTED = ["hashlib (sha256) for the filter-header chain — hash256 is a universally quantified function in the theorem",
            "modelled, not verified: Script.raw_serialize (a CompactFilter is queried through an object whose "
            "raw_serialize() returns the given bytes); GenericMessage plumbing of filterload"]
@@ -423,7 +432,20 @@ def i_bloom_core_wire(size, fc, tweak, items, flag, probes):
             len(v) <= 36000 and nf <= 50]
 
 
+def i_cf_new(key, hashes, raws):
+    """CompactFilter(key, hashes) called directly"""
+    cf = compactfilter.CompactFilter(key, list(hashes))
+
+    def guard(fn):
+        try:
+            return fn()
+        except Exception:
+            return ERR
+    return [cf.f, guard(cf.serialize), guard(cf.hash), _query(cf, raws)]
+
+
 IMPL = {
+    "cf_new": i_cf_new,
     "encode_golomb": i_encode_golomb,
     "decode_golomb": i_decode_golomb,
     "pack_bits": lambda bits: compactfilter.pack_bits(list(bits)),
@@ -1058,6 +1080,304 @@ def p_bloom_wire(size, fc, tweak, items, flag):
     return None
 
 
+# ---------------------------------------------------------------- public constructors called directly
+# Both in-library producers of a CompactFilter (parse -> decode_gcs, encode_gcs -> hashed_items) hand over ascending
+# lists; a caller of the public constructor need not.  The same holds for the other classes: the library itself only
+# ever builds them from wire bytes.  Everything below calls the constructors with arguments of unusual but valid
+# shape and compares with the independent references above.
+
+
+def _dsha(b):
+    return hashlib.sha256(hashlib.sha256(b).digest()).digest()
+
+
+def _shape(values):
+    n = len(values)
+    if n < 2:
+        return f"{n} value(s)"
+    if all(a <= b for a, b in zip(values, values[1:])):
+        kind = "ascending"
+    elif all(a >= b for a, b in zip(values, values[1:])):
+        kind = "descending"
+    else:
+        kind = f"unsorted ({sum(1 for a, b in zip(values, values[1:]) if a > b)} descents)"
+    dup = n - len(set(values))
+    return f"{n} values, {kind}" + (f", {dup} duplicate(s)" if dup else "")
+
+
+def p_cf_ctor(key, values, items, probes, as_tuple):
+    """CompactFilter(key, values) built directly from hash values in any order: serialize() is the BIP158 encoding
+    (sorted deltas), hash() its double SHA256, every element is present before and after serialize -> parse"""
+    CF = compactfilter.CompactFilter
+    values = list(values)
+    n = len(values)
+    f = n * M
+    if items and sorted(values) != ref_hashed(key, items):
+        return "harness: the values are not the range-mapped reference SipHash of the items"
+    shape = _shape(values)
+    arg = tuple(values) if as_tuple else list(values)
+    cf = CF(key, arg)
+    if cf.key != key or cf.f != f:
+        return f"CompactFilter(key, {shape}): key / F = {cf.f}, N*M = {f}"
+    want = ref_gcs_from_values(values)
+    raw = cf.serialize()
+    if list(arg) != values:
+        return f"CompactFilter(key, {shape}) / serialize() modified the hash list of the caller"
+    if raw != want:
+        try:
+            back = CF.parse(key, raw)
+            lost = len(set(values) - set(back.hashes))
+            miss = sum(1 for it in items if RawScript(it) not in back)
+            extra = (f"; after serialize -> parse {lost} of {len(set(values))} values are gone and {miss} of "
+                     f"{len(items)} inserted elements are reported absent")
+        except Exception as e:  # noqa
+            extra = f"; the bytes do not parse back ({type(e).__name__})"
+        return (f"CompactFilter(key, {shape}).serialize() = {raw.hex()[:40]}.. is not the BIP158 encoding "
+                f"{want.hex()[:40]}.. (CompactSize N, sorted deltas, Golomb-Rice P=19)" + extra)
+    if cf.hash() != _dsha(want):
+        return f"CompactFilter(key, {shape}).hash() is not the double SHA256 of the BIP158 encoding"
+    if cf.serialize() != want or cf.hash() != _dsha(want):
+        return "a second serialize()/hash() differs from the first"
+    vs = set(values)
+    wants = [((ref_siphash24(key, p) * f) >> 64) in vs for p in probes]
+    for i, it in enumerate(items):
+        if RawScript(it) not in cf:
+            return f"false negative on CompactFilter(key, {shape}): element {i}"
+    for p, w in zip(probes, wants):
+        if (RawScript(p) in cf) != w:
+            return f"membership of {p.hex()[:24]}.. on CompactFilter(key, {shape}) is {not w}, reference says {w}"
+    # the bytes as the receiving side reads them
+    if ref_gcs_decode(want) != sorted(values):
+        return "harness: reference reader"
+    back = CF.parse(key, raw)
+    if back.f != f or sorted(back.hashes) != sorted(vs):
+        return f"parse(serialize()) of CompactFilter(key, {shape}) has other values / F"
+    if back.serialize() != want or back.hash() != _dsha(want) or not (back == cf) or not (cf == back):
+        return f"parse(serialize()) of CompactFilter(key, {shape}) serialises / compares differently"
+    _n, gcs = ref_split_count(raw)
+    for i, it in enumerate(items):
+        if RawScript(it) not in back:
+            return f"false negative after serialize -> parse of CompactFilter(key, {shape}): element {i}"
+        if not ref_gcs_match(key, gcs, it, n):
+            return f"gcs_match of BIP158 on serialize() of CompactFilter(key, {shape}) misses element {i}"
+    for p, w in zip(probes, wants):
+        if (RawScript(p) in back) != w:
+            return f"membership after serialize -> parse differs from the reference for {p.hex()[:24]}.."
+    # the order of the argument is immaterial
+    for name, perm in (("ascending", sorted(values)), ("descending", sorted(values, reverse=True)),
+                       ("reversed", values[::-1])):
+        c2 = CF(key, tuple(perm) if not as_tuple else list(perm))
+        if c2.f != f or c2.serialize() != want or c2.hash() != _dsha(want) or not (c2 == cf):
+            return f"the same values in {name} order give another filter than {shape}"
+    # the filter does not alias the caller's list
+    if not as_tuple:
+        arg.reverse()
+        arg.append(7)
+        arg[0] += 1
+        if cf.serialize() != want or cf.f != f or any(RawScript(it) not in cf for it in items):
+            return "the filter changes when the caller edits the list he passed to the constructor"
+    # what the in-library producers make of the same elements
+    if items and len(key) == 16:
+        if compactfilter.encode_gcs(key, list(items)) != want:
+            return "encode_gcs differs from the direct construction"
+        if CF(key, compactfilter.hashed_items(key, list(items))).serialize() != want:
+            return "CompactFilter(key, hashed_items(...)) differs from the direct construction"
+    if len(key) == 16:
+        bh = bytes(16) + key[::-1]
+        m = compactfilter.CFilterMessage(0, bh, raw)
+        if m.hash() != _dsha(want) or not (m.cf == cf) or m.cf.serialize() != want:
+            return "CFilterMessage over serialize() of the directly built filter differs"
+        if any(RawScript(it) not in m for it in items):
+            return "false negative through CFilterMessage over serialize() of the directly built filter"
+        prev = bytes(range(32))
+        if compactfilter.CFHeadersMessage(0, bh, prev, [cf.hash()]).last_header != _dsha(_dsha(want) + prev):
+            return "filter header of the directly built filter is not double-SHA256(filter hash || previous header)"
+    return None
+
+
+def p_cf_chain(prev, filters):
+    """filter hashes of directly built filters chained into headers"""
+    cur = prev
+    fhs = []
+    for key, values in filters:
+        cf = compactfilter.CompactFilter(key, list(values))
+        fhs.append(cf.hash())
+        cur = _dsha(_dsha(ref_gcs_from_values(values)) + cur)
+    m = compactfilter.CFHeadersMessage(0, bytes(32), prev, fhs)
+    if m.last_header != cur:
+        return ("the header chain over CompactFilter(key, values).hash() is not the fold of double-SHA256(hash256("
+                "BIP158 encoding) || previous header): " + ", ".join(_shape(list(v)) for _, v in filters))
+    return None
+
+
+def p_cfmsg_ctor(ftype, bh, items, probes):
+    """CFilterMessage(filter_type, block_hash, filter_bytes) called directly on bytes made by the reference writer"""
+    from io import BytesIO
+    key = bh[::-1][:16]
+    n = len(items)
+    fb = ref_bip158(key, items)
+    m = compactfilter.CFilterMessage(ftype, bh, fb)
+    mk = compactfilter.CFilterMessage(filter_type=ftype, block_hash=bh, filter_bytes=fb)
+    for o in (m, mk):
+        if o.filter_type != ftype or o.block_hash != bh or o.filter_bytes != fb:
+            return "CFilterMessage constructor fields"
+        if o.cf.key != key or o.cf.f != n * M:
+            return f"CFilterMessage: key / F of the decoded filter (F = {o.cf.f}, N*M = {n * M})"
+        if o.hash() != _dsha(fb) or o.cf.hash() != _dsha(fb) or o.cf.serialize() != fb:
+            return "CFilterMessage: hash() / cf.serialize() differ from the filter bytes"
+        for i, it in enumerate(items):
+            if RawScript(it) not in o:
+                return f"false negative through CFilterMessage(type {ftype}): element {i} of {n}"
+        _n, gcs = ref_split_count(fb)
+        for p in probes:
+            if (RawScript(p) in o) != ref_gcs_match(key, gcs, p, n):
+                return "CFilterMessage membership differs from gcs_match of BIP158"
+    if not (m == mk):
+        return "positional and keyword construction compare unequal"
+    wire = bytes([ftype]) + bh[::-1] + ref_varint(len(fb)) + fb
+    q = compactfilter.CFilterMessage.parse(BytesIO(wire))
+    if not (q == m) or q.filter_type != ftype or q.block_hash != bh or q.filter_bytes != fb or q.cf.key != key:
+        return "CFilterMessage.parse of the wire form differs from the constructed message"
+    return None
+
+
+def p_cfheaders_ctor(ftype, stop, prev, hashes, as_tuple):
+    """CFHeadersMessage(filter_type, stop_hash, previous_filter_header, filter_hashes) called directly"""
+    from io import BytesIO
+    hashes = list(hashes)
+    n = len(hashes)
+    arg = tuple(hashes) if as_tuple else list(hashes)
+    headers = [prev]
+    for fh in hashes:
+        headers.append(hashlib.sha256(hashlib.sha256(fh + headers[-1]).digest()).digest())
+    m = compactfilter.CFHeadersMessage(ftype, stop, prev, arg)
+    mk = compactfilter.CFHeadersMessage(filter_type=ftype, stop_hash=stop, previous_filter_header=prev,
+                                        filter_hashes=arg)
+    if list(arg) != hashes:
+        return "the constructor modified the list of filter hashes"
+    for o in (m, mk):
+        if o.filter_type != ftype or o.stop_hash != stop or o.previous_filter_header != prev or \
+                list(o.filter_hashes) != hashes:
+            return "CFHeadersMessage constructor fields"
+        if o.last_header != headers[n]:
+            return (f"CFHeadersMessage({n} hashes).last_header is not the fold of double-SHA256(filter_hash || "
+                    f"previous_header)")
+    for k in sorted({0, 1, n // 2, n - 1, n} & set(range(n + 1))):
+        a = compactfilter.CFHeadersMessage(ftype, stop, prev, hashes[:k])
+        if a.last_header != headers[k]:
+            return f"the header after {k} of {n} filter hashes is wrong"
+        b = compactfilter.CFHeadersMessage(ftype, stop, a.last_header, hashes[k:])
+        if b.last_header != headers[n]:
+            return f"batches of {k} and {n - k} hashes do not chain to the header of the whole run"
+    wire = bytes([ftype]) + stop[::-1] + prev + ref_varint(n) + b"".join(hashes)
+    q = compactfilter.CFHeadersMessage.parse(BytesIO(wire))
+    if q.filter_type != ftype or q.stop_hash != stop or q.previous_filter_header != prev or \
+            list(q.filter_hashes) != hashes or q.last_header != headers[n]:
+        return "CFHeadersMessage.parse of the wire form differs from the constructed message"
+    return None
+
+
+def p_cfcheckpt_ctor(ftype, stop, headers, as_tuple, tail):
+    """CFCheckPointMessage(filter_type, stop_hash, filter_headers) called directly / parsed"""
+    from io import BytesIO
+    headers = list(headers)
+    arg = tuple(headers) if as_tuple else list(headers)
+    m = compactfilter.CFCheckPointMessage(ftype, stop, arg)
+    mk = compactfilter.CFCheckPointMessage(filter_type=ftype, stop_hash=stop, filter_headers=arg)
+    for o in (m, mk):
+        if o.filter_type != ftype or o.stop_hash != stop or list(o.filter_headers) != headers:
+            return "CFCheckPointMessage constructor fields"
+    if list(arg) != headers or m.command != b"cfcheckpt":
+        return "CFCheckPointMessage constructor modified its argument / command"
+    s = BytesIO(bytes([ftype]) + stop[::-1] + ref_varint(len(headers)) + b"".join(headers) + tail)
+    q = compactfilter.CFCheckPointMessage.parse(s)
+    if q.filter_type != ftype or q.stop_hash != stop or list(q.filter_headers) != headers or s.read() != tail:
+        return "CFCheckPointMessage.parse of the wire form differs from the constructed message"
+    return None
+
+
+def p_bloom_ctor(size, fc, tweak, items, kw):
+    """BloomFilter(size, function_count, tweak) at the edges of the parameter ranges: fresh state, filterload() with
+    the default flag, bits = Core's CBloomFilter, order / repetition of add() immaterial"""
+    BF = bloomfilter.BloomFilter
+    bf = BF(size=size, function_count=fc, tweak=tweak) if kw else BF(size, fc, tweak)
+    if bf.size != size or bf.function_count != fc or bf.tweak != tweak:
+        return "BloomFilter constructor fields"
+    if bf.bit_field != [0] * (size * 8) or bf.filter_bytes() != bytes(size):
+        return f"a fresh BloomFilter({size}, {fc}, {tweak}) is not {size} zero bytes"
+    trailer = struct.pack("<II", fc, tweak)
+    m = bf.filterload()
+    if m.command != b"filterload" or m.serialize() != ref_varint(size) + bytes(size) + trailer + b"\x01":
+        return "filterload() of a fresh filter: BIP37 layout with the default flag 1 (BLOOM_UPDATE_ALL)"
+    v = bytearray(size)
+    want = [0] * (size * 8)
+    for n, it in enumerate(items):
+        bf.add(bytearray(it) if kw and n % 2 else it)
+        ref_core_insert(v, fc, tweak, it)
+        for bit in ref_bloom_bits(size, fc, tweak, it):
+            want[bit] = 1
+    if bf.bit_field != want:
+        return (f"BloomFilter({size}, {fc}, {tweak}): bits set differ from murmur3(seed = i*0xFBA4C795 + tweak) mod "
+                f"(size*8)")
+    if bf.filter_bytes() != bytes(v):
+        return f"BloomFilter({size}, {fc}, {tweak}).filter_bytes() differs from the vData of Core's CBloomFilter"
+    payload = bf.filterload().serialize()
+    if payload != ref_varint(size) + bytes(v) + trailer + b"\x01":
+        return "filterload() with the default flag differs from the BIP37 layout"
+    d = ref_filterload_decode(payload)
+    if d != (bytes(v), fc, tweak, 1):
+        return "the filterload payload does not decode to (vData, nHashFuncs, nTweak, 1)"
+    for it in items:
+        if not ref_core_contains(d[0], d[1], d[2], it):
+            return f"false negative on the wire (size {size}, {fc} functions, tweak {tweak})"
+    for flag in (0, 2):
+        if bf.filterload(flag).serialize() != payload[:-1] + bytes([flag]) or \
+                bf.filterload(flag=flag).serialize() != payload[:-1] + bytes([flag]):
+            return f"filterload({flag}) differs from the BIP37 layout"
+    b2 = BF(size, fc, tweak)
+    for it in list(items[::-1]) + list(items[:1]):
+        b2.add(it)
+    if b2.filter_bytes() != bytes(v):
+        return "the same elements added in reverse order / twice give other filter bytes"
+    return None
+
+
+def p_sip_ctor(key, msg):
+    """SipHash_2_4: the data given at construction, by update(), or split between the two at every offset; keyword
+    arguments; module aliases; a fresh object after a used one"""
+    S = siphash.SipHash_2_4
+    want = ref_siphash24(key, msg)
+    forms = [("SipHash_2_4(key, msg)", lambda: S(key, msg)),
+             ("SipHash_2_4(key).update(msg)", lambda: S(key).update(msg)),
+             ("SipHash_2_4(secret=key, s=msg)", lambda: S(secret=key, s=msg)),
+             ("SipHash_2_4(key, s=b'').update(msg)", lambda: S(key, s=b"").update(msg)),
+             ("siphash24(key, msg)", lambda: siphash.siphash24(key, msg)),
+             ("SipHash24(key).update(msg)", lambda: siphash.SipHash24(key).update(msg)),
+             ("SipHash_2_4(bytearray(key), msg)", lambda: S(bytearray(key), msg)),
+             ("SipHash_2_4(key, msg).copy()", lambda: S(key, msg).copy()),
+             ("SipHash_2_4(key, msg).update(b'')", lambda: S(key, msg).update(b""))]
+    for name, mk in forms:
+        o = mk()
+        got = o.hash()
+        if got != want:
+            return f"{name}.hash() = {got:#x} for {len(msg)} bytes, SipHash-2-4 = {want:#x}"
+        if o.digest() != struct.pack("<Q", want) or o.hexdigest() != struct.pack("<Q", want).hex().encode():
+            return f"{name}: digest()/hexdigest() are not the little-endian hash"
+    for cut in range(len(msg) + 1):
+        got = S(key, msg[:cut]).update(msg[cut:]).hash()
+        if got != want:
+            return (f"SipHash_2_4(key, msg[:{cut}]).update(msg[{cut}:]).hash() = {got:#x} for {len(msg)} bytes, "
+                    f"SipHash-2-4 = {want:#x}")
+        c2 = cut + (len(msg) - cut) // 2
+        if S(key, msg[:cut]).update(msg[cut:c2]).update(msg[c2:]).hash() != want:
+            return f"three pieces (constructor, update, update) split at {cut}, {c2}: wrong hash"
+    if S(key).hash() != ref_siphash24(key, b"") or S(key, b"").hash() != ref_siphash24(key, b""):
+        return "a fresh SipHash_2_4(key) after used objects is not the hash of the empty message"
+    if compactfilter._siphash(key, msg) != want:
+        return "_siphash differs from SipHash-2-4"
+    return None
+
+
 PROPS = {"cf_match": p_cf_match, "reserialize_stable": p_reserialize_stable, "cfmsg": p_cfmsg,
          "cfheaders_parse": p_cfheaders_parse, "bloom_wire": p_bloom_wire,
          "cf_reserialize": p_cf_reserialize, "golomb_rt": p_golomb_rt, "pack_unpack": p_pack_unpack, "unpack_pack": p_unpack_pack, "gcs_rt": p_gcs_rt,
@@ -1065,7 +1385,9 @@ PROPS = {"cf_match": p_cf_match, "reserialize_stable": p_reserialize_stable, "cf
          "sipround": p_sipround, "murmur_vector": p_murmur_vector, "murmur_ref": p_murmur_ref, "bloom": p_bloom,
          "bloom_vectors": p_bloom_vectors, "bip158_vector": p_bip158_vector, "cfheader_chain": p_cfheader_chain,
          "reuse_siphash": p_reuse_siphash, "hash_order": p_hash_order, "reuse_cf": p_reuse_cf,
-         "reuse_bloom": p_reuse_bloom, "murmur_order": p_murmur_order, "golomb_order": p_golomb_order}
+         "reuse_bloom": p_reuse_bloom, "murmur_order": p_murmur_order, "golomb_order": p_golomb_order,
+         "cf_ctor": p_cf_ctor, "cf_chain": p_cf_chain, "cfmsg_ctor": p_cfmsg_ctor, "cfheaders_ctor": p_cfheaders_ctor,
+         "cfcheckpt_ctor": p_cfcheckpt_ctor, "bloom_ctor": p_bloom_ctor, "sip_ctor": p_sip_ctor}
 
 # ---------------------------------------------------------------- generators
 
@@ -1544,3 +1866,163 @@ def generate(ctx):
         seq = [[x % (1 << (p + 6)), p] for x, p in seq]     # unary part of at most 64 bits
         ctx.label("reuse/golomb-call-order")
         yield ("prop", "golomb_order", [seq])
+
+    # ---- third round: the public constructors called directly with arguments of unusual but valid shape
+    yield from gen_constructors(ctx)
+
+
+def orderings(r, vals):
+    """the same multiset of hash values in the orders a caller may have them in"""
+    n = len(vals)
+    asc = sorted(vals)
+    out = [("element-order", list(vals)), ("ascending", asc), ("descending", asc[::-1])]
+    sh = list(vals)
+    r.shuffle(sh)
+    out.append(("shuffled", sh))
+    if n >= 2:
+        out.append(("rotated", asc[1:] + asc[:1]))                  # one descent, at the very end
+        out.append(("rotated-back", asc[-1:] + asc[:-1]))           # one descent, at the very start
+        a = list(asc)
+        a[0], a[1] = a[1], a[0]
+        out.append(("first-two-swapped", a))
+        a = list(asc)
+        a[-1], a[-2] = a[-2], a[-1]
+        out.append(("last-two-swapped", a))
+        out.append(("two-runs", asc[::2] + asc[1::2]))
+    if n >= 4:
+        a = list(asc)                                               # smallest first, largest last, one inversion inside
+        j = r.randrange(1, n - 2)
+        a[j], a[j + 1] = a[j + 1], a[j]
+        out.append(("one-inversion-inside", a))
+        k = r.randrange(1, n - 1)
+        out.append(("one-value-moved", asc[:k] + asc[k + 1:-1] + [asc[k]] + asc[-1:]))
+    return out
+
+
+def gen_constructors(ctx):
+    r = ctx.rng
+
+    def cf_cases(key, vals, items, label, few=False):
+        probes = [rscript(ctx, r) for _ in range(3)] + [b""]
+        ords = orderings(r, vals)
+        if few:
+            ords = ords[:1] + [ords[r.randrange(1, len(ords))]]
+        for k, (name, perm) in enumerate(ords):
+            srt = all(a <= b for a, b in zip(perm, perm[1:]))
+            ctx.label("ctor/cf/" + label)
+            ctx.label("ctor/cf/order=" + name)
+            ctx.label("ctor/cf/argument-ascending" if srt else "ctor/cf/argument-not-ascending")
+            yield ("prop", "cf_ctor", [key, perm, items, probes, k % 2])
+            yield ("corr", "cf_new", [key, perm, (items[:8] + probes) if len(perm) <= 60 else probes[:2]])
+
+    # elements hashed one by one with the reference SipHash, in element order
+    sizes = [0, 1, 2, 3, 4, 5, 8, 17, 40] + [r.randrange(2, 30) for _ in range(ctx.n(14, 300))]
+    for n in sizes:
+        key = r.choice([ctx.rbytes(16), ctx.rbytes(16), bytes(16), b"\xff" * 16])
+        items = [rscript(ctx, r) for _ in range(n)]
+        cls = "distinct"
+        if n >= 3 and r.random() < 0.4:
+            for _ in range(r.randrange(1, 3)):
+                items[r.randrange(n)] = items[r.randrange(n)]
+            cls = "duplicate-elements"
+        f = n * M
+        vals = [(ref_siphash24(key, it) * f) >> 64 for it in items]
+        yield from cf_cases(key, vals, items, cls + ("/n<=1" if n <= 1 else "/n>=2"))
+    for n in (252, 253, 254, 300) + ((1000, 2000) if ctx.tier != "quick" else ()):          # CompactSize boundary of N
+        key = ctx.rbytes(16)
+        items = [ctx.rbytes(r.randrange(0, 40)) for _ in range(n)]
+        vals = [(ref_siphash24(key, it) * n * M) >> 64 for it in items]
+        yield from cf_cases(key, vals, items, "n>=252", few=True)
+    # two different elements on one value, all elements equal
+    for _ in range(ctx.n(4, 40)):
+        key = ctx.rbytes(16)
+        items = find_collision(ctx, r, key, r.choice([2, 3, 4, 6]))
+        if items is None:
+            continue
+        vals = [(ref_siphash24(key, it) * len(items) * M) >> 64 for it in items]
+        yield from cf_cases(key, vals, items, "crafted-collision")
+    for n in (2, 3, 5):
+        key = ctx.rbytes(16)
+        items = [b"\x00\x14" + bytes(20)] * n
+        vals = [(ref_siphash24(key, it) * n * M) >> 64 for it in items]
+        yield from cf_cases(key, vals, items, "all-equal", few=True)
+    # explicit value lists (no elements): ends of the range, quotient boundaries of the deltas, repeated values
+    q = 1 << P
+    explicit = [[0], [M - 1], [0, 0], [2 * M - 1, 0], [q, q - 1], [q - 1, q], [2 * q, q, 0], [5, 5, 5], [3 * M - 1, 0, 3 * M - 1],
+                [q + 1, 1, 2 * q + 1, 1], [4 * M - 1, 4 * M - 2, 1, 0], [7, 7, 3, 3, 5, 5], [2 * q - 1, 4 * q, 2 * q, 0, q]]
+    for _ in range(ctx.n(10, 200)):
+        n = r.randrange(2, 12)
+        base = [r.randrange(0, n * M) for _ in range(n)]
+        if r.random() < 0.5:
+            base[r.randrange(n)] = base[r.randrange(n)]
+        if r.random() < 0.3:
+            base[r.randrange(n)] = r.choice([0, n * M - 1])
+        explicit.append(base)
+    for vals in explicit:
+        yield from cf_cases(ctx.rbytes(16), vals, [], "explicit-values", few=len(vals) > 4)
+    for kl in (0, 15, 17):          # key of the wrong size: the constructor accepts it, the queries raise
+        yield ("corr", "cf_new", [ctx.rbytes(kl), [5, 3, 9], [b"a", b""]])
+    # filter hashes of directly built filters in a header chain
+    for _ in range(ctx.n(8, 100)):
+        fl = []
+        for _j in range(r.randrange(1, 5)):
+            n = r.randrange(0, 9)
+            fl.append([ctx.rbytes(16), [r.randrange(0, max(1, n) * M) for _k in range(n)]])
+        ctx.label("ctor/cf/header-chain")
+        yield ("prop", "cf_chain", [r.choice([bytes(32), ctx.rbytes(32)]), fl])
+
+    # cfilter / cfheaders / cfcheckpt messages
+    bhs = [bytes(32), b"\xff" * 32, bytes(8) + ctx.rbytes(24), ctx.rbytes(24) + bytes(8), ctx.rbytes(32)]
+    for n in [0, 1, 2, 3, 5, 17, 253] + [r.randrange(0, 30) for _ in range(ctx.n(10, 200))]:
+        bh = r.choice(bhs + [ctx.rbytes(32)] * 3)
+        items = [rscript(ctx, r) if n < 100 else ctx.rbytes(r.randrange(0, 30)) for _ in range(n)]
+        if n >= 2 and r.random() < 0.3:
+            items[-1] = items[0]
+        ftype = r.choice([0, 0, 1, 255])
+        ctx.label(f"ctor/cfilter-message/type={ftype}")
+        yield ("prop", "cfmsg_ctor", [ftype, bh, items, [rscript(ctx, r) for _ in range(3)] + [b""]])
+        yield ("corr", "cfmsg_new_contains", [bh, ref_bip158(bh[::-1][:16], items), items[:10] + [b""]])
+    for k, n in enumerate([0, 1, 2, 3, 252, 253, 2000] + [r.randrange(0, 40) for _ in range(ctx.n(10, 200))]):
+        stop = ctx.rbytes(32)
+        prev = r.choice([bytes(32), ctx.rbytes(32), ctx.rbytes(32)])
+        hs = [ctx.rbytes(32) for _ in range(n)]
+        if n >= 2 and r.random() < 0.3:
+            hs[r.randrange(n)] = hs[r.randrange(n)]         # the same filter (e.g. empty blocks) twice
+        if n >= 2 and r.random() < 0.15:
+            hs = [hs[0]] * n
+        ctx.label("ctor/cfheaders/n=0" if n == 0 else "ctor/cfheaders/n<253" if n < 253 else "ctor/cfheaders/n>=253")
+        yield ("prop", "cfheaders_ctor", [r.choice([0, 0, 1, 255]), stop, prev, hs, k % 2])
+        if n < 300:
+            yield ("corr", "cfheader_chain", [prev, hs])
+    for k, n in enumerate([0, 1, 2, 252, 253] + [r.randrange(0, 20) for _ in range(ctx.n(6, 100))]):
+        ctx.label("ctor/cfcheckpt")
+        yield ("prop", "cfcheckpt_ctor", [r.choice([0, 0, 1, 255]), ctx.rbytes(32), [ctx.rbytes(32) for _ in range(n)],
+                                          k % 2, ctx.rbytes(r.choice([0, 0, 3]))])
+
+    # bloom filters at the edges of size (1..36000 bytes: bit counts around powers of two, CompactSize boundary),
+    # function count (1..50) and tweak (uint32)
+    bsizes = [1, 2, 3, 4, 31, 32, 33, 252, 253, 254, 255, 256, 257, 511, 512, 513, 8191, 8192, 8193, 35999, 36000]
+    edge = [(1, 0), (50, 2 ** 32 - 1), (1, 2 ** 32 - 1), (50, 0), (2, 2 ** 31), (49, 2 ** 31 - 1), (50, 1)]
+    for k, size in enumerate(bsizes):
+        for j in range(2 if size < 8000 else 1):
+            fc, tweak = edge[(k + 3 * j) % len(edge)] if j == 0 else (r.randrange(1, 51), r.getrandbits(32))
+            items = [r.choice([ctx.rbytes(20), ctx.rbytes(32), ctx.rbytes(36), b"", ctx.rbytes(r.randrange(1, 8))])
+                     for _ in range(r.randrange(0, 4))]
+            ctx.label("ctor/bloom/size>=8000" if size >= 8000 else "ctor/bloom/size<8000")
+            yield ("prop", "bloom_ctor", [size, fc, tweak, items, (k + j) % 2])
+            if size < 600:
+                yield ("corr", "bloom_core_wire", [size, fc, tweak, items, 1, items + [b"x"]])
+    for (fc, tweak) in edge:
+        ctx.label("ctor/bloom/edge-functions-tweak")
+        yield ("prop", "bloom_ctor", [r.choice([1, 5, 64]), fc, tweak, [b"", ctx.rbytes(20), ctx.rbytes(33)], r.randrange(2)])
+
+    # SipHash objects: data at construction / by update / split at every offset / keyword / aliases
+    for n in list(range(0, 26)) + [31, 32, 33, 63, 64, 65, 255, 256, 257] + [r.randrange(26, 200) for _ in range(ctx.n(3, 60))]:
+        key = r.choice([ctx.rbytes(16), ctx.rbytes(16), bytes(16), b"\xff" * 16])
+        msg = ctx.rbytes(n)
+        ctx.label(f"ctor/siphash/tail={n % 8}")
+        yield ("prop", "sip_ctor", [key, msg])
+        cut = r.randrange(0, n + 1)
+        yield ("corr", "sip_object", [key, msg[:cut], [msg[cut:]]])
+        yield ("corr", "sip_object", [key, msg, [b""]])
+        yield ("corr", "sip_object", [key, b"", [msg]])
